@@ -54,7 +54,8 @@ def gen_desc(rng):
 def run(ctx):
     from androguard.core import dex
     from androguard.decompiler import util
-    ctx.rule = ("end to end: abstract classes with random field/parameter/return/super/interface types decompiled by DvClass.get_source(), every printed type compared; "
+    ctx.rule = ("end to end: abstract classes with random field/parameter/return/super/interface types decompiled by DvClass.get_source(), every printed type compared; field declarations also in the token form (get_source_ext); "
+                "classes declaring two or three fields of ONE name with different descriptors (static/instance mixed): the printed types of the name match the fields one to one; "
                 "direct calls of decompiler.util.get_type and dex.get_type on descriptors: exhaustive primitives x dims 0..3, "
                 "all 1..3-segment class names over a fixed segment alphabet, random descriptors (look-alike packages, nested arrays to depth 255); "
                 "distinct non-trivial = distinct (function, package-class, #segments, dims-class) with a class type")
@@ -164,6 +165,9 @@ def run(ctx):
     ctx.require_counter("dex.get_type")
     end_to_end(ctx)
     ctx.require_counter("printed_types_compared", 200)
+    ctx.require_counter("same_name_fields_compared", 60)
+    ctx.require_counter("same_name_fields_compared-ext", 60)
+    ctx.require_counter("ext_field_types_compared", 100)
 
 
 def class_header_names(desc):
@@ -179,6 +183,7 @@ def end_to_end(ctx):
     from androguard.decompiler.decompiler import DecompilerDAD
     from vf.model import dexw as W
     rng = ctx.rng("c24-e2e")
+    srng = ctx.rng("c24-e2e-samename")
     n = 120 if ctx.quick else 12000
     for k in range(n):
         m = W.DexModel()
@@ -196,6 +201,35 @@ def end_to_end(ctx):
                     d = d.lstrip("[")
                 c.add_field("f%d" % fi, d, rng.choice([0, W.ACC_PUBLIC, W.ACC_STATIC]))
                 fields.append(("f%d" % fi, d))
+            # field names are unique in Java source but not in DEX: a field is identified by (class, name, TYPE), so a class may declare
+            # several fields sharing one name with different descriptors (aggressive overloading by obfuscators); each has its own type
+            same = []
+            if srng.random() < 0.5:
+                for gi in range(srng.choice([1, 1, 2])):
+                    descs = []
+                    want_n = srng.choice([2, 2, 3])
+                    while len(descs) < want_n:
+                        if descs and srng.random() < 0.4:
+                            # a close relative of a sibling: one more dimension, its element type, or the same simple name in another package
+                            b = srng.choice(descs)
+                            v = srng.choice(["dim", "elem", "pkg"])
+                            if v == "dim":
+                                d = "[" + b
+                            elif v == "elem":
+                                d = b.lstrip("[")
+                            else:
+                                e = b.lstrip("[")
+                                d = b[:len(b) - len(e)] + ("L%s%s" % (srng.choice(["", "java/lang/", "java/lang/ref/", "p/"]), e[1:].rsplit("/", 1)[-1]) if e not in PRIMS else srng.choice("ZBSCIJFD"))
+                        else:
+                            d = gen_desc(srng)
+                        if d.count("[") > 6:
+                            d = d.lstrip("[")
+                        if d not in descs:
+                            descs.append(d)
+                    for d in descs:
+                        acc = srng.choice([0, W.ACC_PUBLIC, W.ACC_PRIVATE, W.ACC_STATIC, W.ACC_STATIC, W.ACC_STATIC | W.ACC_PUBLIC, W.ACC_FINAL])
+                        c.add_field("g%d" % gi, d, acc)
+                        same.append(("g%d" % gi, d, bool(acc & W.ACC_STATIC)))
             methods = []
             for mi in range(rng.randrange(0, 4)):
                 ret = rng.choice(["V", gen_desc(rng).lstrip("[") if rng.random() < 0.5 else gen_desc(rng)])
@@ -246,7 +280,7 @@ def end_to_end(ctx):
                 proto = {"cc": (OBJ, (OBJ,)), "io": ("Z", (OBJ,)), "kc": ("Ljava/lang/Class;", ()), "na": (OBJ, ("I",)), "ni": (OBJ, ()), "sg": (OBJ, ()), "iv": (OBJ, (OBJ,)),
                          "fa": (OBJ, ("I", "I"))}[form]
                 bodies.append((nm, form, t, proto))
-            classes.append((cname, sup, ifs, fields, methods, bodies))
+            classes.append((cname, sup, ifs, fields, methods, bodies, same))
         try:
             d = DEX(W.write_dex(m))
             dx = Analysis(d)
@@ -255,7 +289,7 @@ def end_to_end(ctx):
         except Exception as e:
             ctx.violation("e2e-parse-raises", "DEX/Analysis raises on a generated file", {"exc": exc_str(e)})
             continue
-        for cname, sup, ifs, fields, methods, bodies in classes:
+        for cname, sup, ifs, fields, methods, bodies, same in classes:
             ctx.ev()
             ctx.count("classes_decompiled")
             try:
@@ -288,6 +322,40 @@ def end_to_end(ctx):
                 elif fm.group(1) not in accepted(fd):
                     ctx.violation("field-type-" + pkgclass_of(fd), "field type rendered as a different Java type", dict(wit, field=fname, desc=fd, got=fm.group(1), accepted=sorted(accepted(fd))))
                 ctx.sig("e2e-field", pkgclass_of(fd), min(fd.count("["), 3))
+            # every declaration of a name shared by several fields carries the type of ITS field: the printed types of the name, taken
+            # together, are the types of the fields of that name (whatever the order the declarations are printed in)
+            if same:
+                decls = {}
+                for line in src.split("\n"):
+                    if line.startswith("    ") and not line.startswith("     ") and line.endswith(";") and "(" not in line and " = " not in line:
+                        words = line[:-1].split()
+                        if len(words) >= 2:
+                            decls.setdefault(words[-1], []).append(words[-2])
+                same_name_fields(ctx, "get_source", same, decls, wit)
+            if same or fields:
+                # the token form of the same source (DvClass.get_source_ext): FIELD entries with FIELD_TYPE and NAME_FIELD tokens
+                try:
+                    ext = d.get_class(cname).get_source_ext()
+                except Exception as e:
+                    ctx.violation("e2e-decompile-ext-raises", "get_source_ext raises", {"class": cname, "exc": exc_str(e)})
+                    ext = None
+                if ext is not None:
+                    decls = {}
+                    for kind, toks in ext:
+                        if kind == "FIELD":
+                            t = {x[0]: x[1] for x in toks}
+                            decls.setdefault(t.get("NAME_FIELD"), []).append(t.get("FIELD_TYPE"))
+                    for fname, fd in fields:
+                        got = decls.get(fname, [])
+                        ctx.count("printed_types_compared")
+                        ctx.count("ext_field_types_compared")
+                        if len(got) != 1:
+                            ctx.violation("field-not-printed-ext", "a declared field is missing (or repeated) in the token form of the decompiled class", dict(wit, field=fname, got=got))
+                        elif got[0] not in accepted(fd):
+                            ctx.violation("field-type-ext-" + pkgclass_of(fd), "field type rendered as a different Java type in the token form of the source",
+                                          dict(wit, field=fname, desc=fd, got=got[0], accepted=sorted(accepted(fd))))
+                    if same:
+                        same_name_fields(ctx, "get_source_ext", same, decls, wit)
             for mname, ret, params in methods:
                 mm = re.search(r"(\S+) %s\(([^)]*)\)" % mname, src)
                 ctx.count("printed_types_compared", 1 + len(params))
@@ -332,6 +400,38 @@ def end_to_end(ctx):
                 ctx.sig("e2e-body", form, pkgclass_of(want_t), min(want_t.count("["), 3))
         if k == 0:
             ctx.sample({"e2e_class": classes[0][0], "fields": classes[0][3], "methods": classes[0][4], "source": src[:500]})
+
+
+def same_name_fields(ctx, where, same, decls, wit):
+    """same: [(name, descriptor, is_static)] of the fields sharing their name with another field of the class; decls: name -> printed types.
+    The printed types of a name must be assignable one to one to the fields of that name."""
+    by_name = {}
+    for name, fd, st in same:
+        by_name.setdefault(name, []).append((fd, st))
+    ext = "-ext" if where == "get_source_ext" else ""
+    for name, fl in sorted(by_name.items()):
+        descs = [fd for fd, _ in fl]
+        got = decls.get(name, [])
+        ctx.ev()
+        ctx.count("same_name_field_groups" + ext)
+        ctx.count("same_name_fields_compared" + ext, len(descs))
+        ctx.count("printed_types_compared", len(descs))
+        w = dict(wit, where=where, field=name, descs=descs, got=got, accepted=[sorted(accepted(fd)) for fd in descs])
+        if len(got) != len(descs):
+            ctx.violation("field-not-printed" + ext, "a class declaring several fields of one name: not one declaration per field", w)
+            continue
+        if not any(all(g in accepted(fd) for g, fd in zip(perm, descs)) for perm in itertools.permutations(got)):
+            every = set().union(*[accepted(fd) for fd in descs])
+            if all(g in every for g in got):
+                mech = "field-type-same-name-takes-sibling-type" + ext
+                what = "fields sharing one name with different descriptors: a declaration is printed with the type of another field of that name"
+            else:
+                mech = "field-type-same-name" + ext
+                what = "fields sharing one name with different descriptors: a declaration is printed with a type of none of them"
+            ctx.violation(mech, what, w)
+        nst = sum(1 for _, st in fl if st)
+        ctx.sig("e2e-same-name-fields" + ext, len(descs), "static" if nst == len(fl) else "instance" if not nst else "mixed",
+                tuple(sorted({pkgclass_of(fd) for fd in descs})), len({fd.lstrip("[") for fd in descs}) < len(descs))
 
 
 def pkgclass_of(desc):
